@@ -101,7 +101,12 @@ where
             };
             format!("{}|{}|{}", r1, r2, r3)
         }
-        "fmt" => guard(|| format!("h{}", hex(&format!("{}", rate)))),
+        "fmt" => format!(
+            "{} h{} h{}",
+            guard(|| format!("h{}", hex(&format!("{}", rate)))),
+            hex(&format!("{}", ta)),
+            hex(&format!("{}", pm))
+        ),
         _ => "bad-op".into(),
     }
 }
